@@ -162,6 +162,9 @@ def main():
         if "harness_error" in r:
             rep.harness_error("%s: %s" % (r.get("_job"), r["harness_error"]))
             continue
+        if r.get("timed_out"):
+            agg["inconclusive"] += 1
+            continue
         st[r["status"]] += 1
         if r["status"] == "crash":
             crashes.append({"id": r["id"], "detail": r["detail"]})
